@@ -1,6 +1,382 @@
 package main
 
-import "verifh/hx"
+// box.go — black-box part of the MemoryBackend tie: the same kind of history, sent as MQTT
+// packets by scripted peers through broker.Engine.Handle over net.Pipe.  The script is
+// sequential (every request waits for its acknowledgement; a QoS 0 publish is followed by
+// PINGREQ/PINGRESP), so the backend sees the operations in script order.  Deliveries are
+// collected per peer between FIFO markers: a QoS 0 and a QoS 1 marker published to the
+// peer's private topic m/<n> (one per backend queue), and compared by ocaml/drv_backend_box.ml
+// with what the model's queues hold at that point.
+//
+//   box <k> setup <c> <id> <clean>      boximpl <k> connack:<sessionpresent>
+//   box <k> sub <c> <f,q;…>  | unsub <c> <f;…> | pub <c> <msg> | disc <c>
+//   box <k> drain <c>                    boxrecv <k> <c> <messages from the temporary queue> <… stored queue>
+// The payload of every message ends in its published QoS, which tells the peer which queue a
+// received message came from (retained replays and QoS 0 -> temporary queue).
 
-// runBox: black-box histories through the whole broker (written later)
-func runBox(c *hx.Ctx) {}
+import (
+	"fmt"
+	"net"
+	"strings"
+	"sync"
+	"time"
+
+	"github.com/256dpi/gomqtt/broker"
+	"github.com/256dpi/gomqtt/packet"
+	"github.com/256dpi/gomqtt/transport"
+
+	"verifh/hx"
+)
+
+type peer struct {
+	n      int
+	id     string
+	conn   transport.Conn
+	acks   chan packet.Generic
+	mu     sync.Mutex
+	got    []packet.Message
+	nextID packet.ID
+	eof    chan struct{}
+}
+
+func (p *peer) reader() {
+	defer close(p.eof)
+	for {
+		pkt, err := p.conn.Receive()
+		if err != nil {
+			return
+		}
+		switch v := pkt.(type) {
+		case *packet.Publish:
+			if !v.Dup {
+				p.mu.Lock()
+				p.got = append(p.got, v.Message)
+				p.mu.Unlock()
+			}
+			if v.Message.QOS == 1 {
+				_ = p.conn.Send(&packet.Puback{ID: v.ID}, false)
+			} else if v.Message.QOS == 2 {
+				_ = p.conn.Send(&packet.Pubrec{ID: v.ID}, false)
+			}
+		case *packet.Pubrel:
+			_ = p.conn.Send(&packet.Pubcomp{ID: v.ID}, false)
+		default:
+			p.acks <- pkt
+		}
+	}
+}
+
+func (p *peer) wait(t packet.Type) (packet.Generic, bool) {
+	for {
+		select {
+		case pkt := <-p.acks:
+			if pkt.Type() == t {
+				return pkt, true
+			}
+		case <-p.eof:
+			return nil, false
+		case <-time.After(10 * time.Second):
+			return nil, false
+		}
+	}
+}
+
+type boxWorld struct {
+	c      *hx.Ctx
+	k      int
+	be     *broker.MemoryBackend
+	eng    *broker.Engine
+	peers  map[int]*peer
+	failed bool
+}
+
+func (w *boxWorld) fail(what string) {
+	w.c.Emit("boxfail %d %s", w.k, what)
+	w.failed = true
+}
+
+func (w *boxWorld) connect(n int, id string, clean bool) {
+	a, b := net.Pipe()
+	w.eng.Handle(transport.NewNetConn(a))
+	p := &peer{n: n, id: id, conn: transport.NewNetConn(b), acks: make(chan packet.Generic, 64), eof: make(chan struct{}), nextID: 1}
+	go p.reader()
+	cp := packet.NewConnect()
+	cp.ClientID = id
+	cp.CleanSession = clean
+	cp.KeepAlive = 0
+	if err := p.conn.Send(cp, false); err != nil {
+		w.fail("connect send")
+		return
+	}
+	pkt, ok := p.wait(packet.CONNACK)
+	if !ok {
+		w.fail("no connack")
+		return
+	}
+	w.peers[n] = p
+	w.c.Emit("box %d setup %d %s %s", w.k, n, hxs(id), hx.B01(clean))
+	w.c.Emit("boximpl %d connack:%s", w.k, hx.B01(pkt.(*packet.Connack).SessionPresent))
+}
+
+func (w *boxWorld) sub(n int, subs []subT) {
+	p := w.peers[n]
+	sp := packet.NewSubscribe()
+	sp.ID = p.nextID
+	p.nextID++
+	parts := make([]string, len(subs))
+	for i, s := range subs {
+		sp.Subscriptions = append(sp.Subscriptions, packet.Subscription{Topic: s.f, QOS: packet.QOS(s.q)})
+		parts[i] = fmt.Sprintf("%s,%d", hxs(s.f), s.q)
+	}
+	_ = p.conn.Send(sp, false)
+	if _, ok := p.wait(packet.SUBACK); !ok {
+		w.fail("no suback")
+		return
+	}
+	w.c.Emit("box %d sub %d %s", w.k, n, strings.Join(parts, ";"))
+}
+
+func (w *boxWorld) unsub(n int, fs []string) {
+	p := w.peers[n]
+	up := packet.NewUnsubscribe()
+	up.ID = p.nextID
+	p.nextID++
+	up.Topics = fs
+	parts := make([]string, len(fs))
+	for i, f := range fs {
+		parts[i] = hxs(f)
+	}
+	_ = p.conn.Send(up, false)
+	if _, ok := p.wait(packet.UNSUBACK); !ok {
+		w.fail("no unsuback")
+		return
+	}
+	w.c.Emit("box %d unsub %d %s", w.k, n, strings.Join(parts, ";"))
+}
+
+func (w *boxWorld) pub(n int, m packet.Message) {
+	p := w.peers[n]
+	pp := packet.NewPublish()
+	pp.Message = m
+	ok := true
+	switch m.QOS {
+	case 0:
+		_ = p.conn.Send(pp, false)
+		_ = p.conn.Send(packet.NewPingreq(), false)
+		_, ok = p.wait(packet.PINGRESP)
+	case 1:
+		pp.ID = p.nextID
+		p.nextID++
+		_ = p.conn.Send(pp, false)
+		_, ok = p.wait(packet.PUBACK)
+	case 2:
+		pp.ID = p.nextID
+		p.nextID++
+		_ = p.conn.Send(pp, false)
+		if _, ok = p.wait(packet.PUBREC); ok {
+			_ = p.conn.Send(&packet.Pubrel{ID: pp.ID}, false)
+			_, ok = p.wait(packet.PUBCOMP)
+		}
+	}
+	if !ok {
+		w.fail("publish not acknowledged")
+		return
+	}
+	w.c.Emit("box %d pub %d %s", w.k, n, hx.MsgText(&m))
+}
+
+func (w *boxWorld) disc(n int) {
+	p := w.peers[n]
+	_ = p.conn.Send(packet.NewDisconnect(), false)
+	select {
+	case <-p.eof:
+	case <-time.After(10 * time.Second):
+		w.fail("no close after DISCONNECT")
+		return
+	}
+	// Terminate runs in the broker's cleanup goroutine: wait until the backend has let go of the connection
+	deadline := time.Now().Add(10 * time.Second)
+	for {
+		st := w.be.VerifSnapshot()
+		gone := true
+		if _, ok := st.Active[p.id]; ok {
+			gone = false
+		}
+		if s, ok := st.Stored[p.id]; ok && s.Active != nil {
+			gone = false
+		}
+		if gone {
+			break
+		}
+		if time.Now().After(deadline) {
+			w.fail("not terminated")
+			return
+		}
+		time.Sleep(200 * time.Microsecond)
+	}
+	delete(w.peers, n)
+	w.c.Emit("box %d disc %d", w.k, n)
+}
+
+func origQOS(m *packet.Message) byte {
+	if len(m.Payload) == 0 {
+		return 0
+	}
+	return m.Payload[len(m.Payload)-1] - '0'
+}
+
+// drain: two markers through the marker publisher (peer 99), then everything peer n received
+func (w *boxWorld) drain(n int) {
+	p := w.peers[n]
+	t := fmt.Sprintf("m/%d", n)
+	w.pub(99, packet.Message{Topic: t, Payload: []byte("mk0"), QOS: 0})
+	w.pub(99, packet.Message{Topic: t, Payload: []byte("mk1"), QOS: 1})
+	if w.failed {
+		return
+	}
+	deadline := time.Now().Add(10 * time.Second)
+	for {
+		p.mu.Lock()
+		m0, m1 := false, false
+		for i := range p.got {
+			if p.got[i].Topic == t && string(p.got[i].Payload) == "mk0" {
+				m0 = true
+			}
+			if p.got[i].Topic == t && string(p.got[i].Payload) == "mk1" {
+				m1 = true
+			}
+		}
+		if m0 && m1 {
+			var tq, sq []packet.Message
+			for i := range p.got {
+				if p.got[i].Retain || origQOS(&p.got[i]) == 0 {
+					tq = append(tq, p.got[i])
+				} else {
+					sq = append(sq, p.got[i])
+				}
+			}
+			p.got = nil
+			p.mu.Unlock()
+			w.c.Emit("box %d drain %d", w.k, n)
+			w.c.Emit("boxrecv %d %d %s %s", w.k, n, msgsText(tq), msgsText(sq))
+			w.c.Stat("box_drains", 1)
+			return
+		}
+		p.mu.Unlock()
+		if time.Now().After(deadline) {
+			w.fail(fmt.Sprintf("markers did not arrive at peer %d", n))
+			return
+		}
+		time.Sleep(100 * time.Microsecond)
+	}
+}
+
+func (w *boxWorld) drainAll() {
+	for n := 1; n <= 8 && !w.failed; n++ {
+		if _, ok := w.peers[n]; ok {
+			w.drain(n)
+		}
+	}
+}
+
+var boxN int
+
+func boxScenario(c *hx.Ctx, length int) {
+	boxN++
+	r := c.Rng
+	be := broker.NewMemoryBackend()
+	eng := broker.NewEngine(be)
+	w := &boxWorld{c: c, k: boxN, be: be, eng: eng, peers: map[int]*peer{}}
+	c.Emit("boxstart %d", w.k)
+	w.connect(99, "mk", true)
+	ids := []string{"x", "y", "z", "", ""}
+	cleanOf := map[int]bool{}
+	idOf := map[int]string{}
+	pn := 0
+	newPeer := func(n int) {
+		if _, ok := idOf[n]; !ok {
+			idOf[n] = ids[(n-1)%len(ids)]
+			cleanOf[n] = idOf[n] == "" || r.Intn(3) == 0
+		}
+		w.connect(n, idOf[n], cleanOf[n])
+		if !w.failed {
+			w.sub(n, []subT{{fmt.Sprintf("m/%d", n), 1}})
+		}
+	}
+	nPeers := 1 + r.Intn(4)
+	for n := 1; n <= nPeers && !w.failed; n++ {
+		newPeer(n)
+	}
+	for step := 0; step < length && !w.failed; step++ {
+		var live []int
+		for n := 1; n <= nPeers; n++ {
+			if _, ok := w.peers[n]; ok {
+				live = append(live, n)
+			}
+		}
+		x := r.Intn(100)
+		switch {
+		case x < 30 && len(live) > 0:
+			k := 1 + r.Intn(4)
+			var subs []subT
+			for i := 0; i < k; i++ {
+				subs = append(subs, subT{filterU[r.Intn(len(filterU))], byte(r.Intn(3))})
+			}
+			w.sub(live[r.Intn(len(live))], subs)
+			w.drainAll()
+		case x < 40 && len(live) > 0:
+			w.unsub(live[r.Intn(len(live))], []string{filterU[r.Intn(len(filterU))], filterU[r.Intn(len(filterU))]})
+		case x < 80:
+			pn++
+			q := byte(r.Intn(3))
+			m := packet.Message{Topic: nameU[r.Intn(len(nameU))], QOS: packet.QOS(q), Retain: r.Intn(3) == 0}
+			if r.Intn(8) != 0 || !m.Retain {
+				m.Payload = []byte(fmt.Sprintf("b%d-%d", pn, q))
+			} else {
+				m.QOS = 0 // an empty payload cannot carry the published QoS
+			}
+			who := 99
+			if len(live) > 0 && r.Intn(2) == 0 {
+				who = live[r.Intn(len(live))]
+			}
+			w.pub(who, m)
+			if r.Intn(3) != 0 {
+				w.drainAll()
+			}
+		case x < 90 && len(live) > 0:
+			n := live[r.Intn(len(live))]
+			w.drain(n)
+			if !w.failed {
+				w.disc(n)
+			}
+		default:
+			for n := 1; n <= nPeers; n++ {
+				if _, ok := w.peers[n]; !ok {
+					newPeer(n)
+					w.drainAll()
+					break
+				}
+			}
+		}
+	}
+	w.drainAll()
+	c.Emit("boxend %d", w.k)
+	c.Stat("box_scenarios", 1)
+	for _, p := range w.peers {
+		_ = p.conn.Close()
+	}
+	be.Close(200 * time.Millisecond)
+}
+
+func runBox(c *hx.Ctx) {
+	if c.Replay != "" {
+		return
+	}
+	n, l := 60, 14
+	if c.Thorough() {
+		n, l = 400, 30
+	}
+	for i := 0; i < n; i++ {
+		boxScenario(c, l)
+	}
+}
